@@ -561,7 +561,7 @@ func init() {
 	})
 	register(&PropDef{
 		ID: "C17", Level: "fault_enumeration",
-		Rule:        tree + " x 1..4 hosts x cluster description kinds {standard, SRV, not JSON, no connection string, malformed string} x payload kinds x output faults {<out>.<k> is a directory for each k, output directory missing} as deviations (quick <=1, thorough <=2), at the library level and (<=1 deviation, 3 / 4 hosts) through the real main() in a child process with its own TMPDIR; the full tree for up to 2 hosts again with TMPDIR spelled with a trailing slash, a "/./" segment, "//" and through a symbolic link. Oracle: after the function returns / the process exits, TMPDIR holds no file - on success and on every failure. distinct = distinct scripts",
+		Rule:        tree + " x 1..4 hosts x cluster description kinds {standard, SRV, not JSON, no connection string, malformed string} x payload kinds x output faults {<out>.<k> is a directory for each k, output directory missing} as deviations (quick <=1, thorough <=2), at the library level and (<=1 deviation, 3 / 4 hosts) through the real main() in a child process with its own TMPDIR; the full tree for up to 2 hosts again with TMPDIR spelled with a trailing slash, a dot segment, a double slash and through a symbolic link. Oracle: after the function returns / the process exits, TMPDIR holds no file - on success and on every failure. distinct = distinct scripts",
 		Assumptions: []string{"TMPDIR is the only place downloads are stored (os.CreateTemp with the default directory)"},
 		Run:         c17Run,
 	})
